@@ -357,7 +357,22 @@ def genTimedOut (w : WG) (g : Nat) : Bool :=
   | some gg => gg.ctx == .deadline
   | none => false
 
-def Sys.setProc (s : Sys) (i : Nat) (p : Proc) : Sys := { s with procs := s.procs.set i p }
+/-- the wait-group side of process `p`'s next step: the wait group after
+the call the process makes (if any), what the process observes, and whether
+the call handed out the leadership of a new generation -/
+def interact (limit : Nat) (w : WG) (p : Proc) (o0 : Obs) : WG × Obs × Bool :=
+  match p.pc with
+  | .start =>
+    if p.internal then (w, o0, false)
+    else match p.headCall limit with
+      | none => (w, o0, false)
+      | some op =>
+        match (w.step op).2 with
+        | some (g, leader) => ((w.step op).1, { o0 with gen := g, leader := leader }, leader)
+        | none => (w, o0, false)
+  | .waiting g => (w, { o0 with genClosed := genClosed w g, genTimedOut := genTimedOut w g }, false)
+  | .finishing (some g) _ => (w.done p.key g, o0, false)   -- the deferred DoneGeneration(leaderKey, leaderGeneration)
+  | _ => (w, o0, false)
 
 /-- one atomic step of the composed system (a disabled step changes nothing) -/
 def Sys.step (limit : Nat) (s : Sys) : Label → Sys
@@ -365,33 +380,17 @@ def Sys.step (limit : Nat) (s : Sys) : Label → Sys
     { s with procs := s.procs ++ [{ key := key, failureProbe := probe, internal := internal }] }
   | .ctxEnd i d =>
     match s.procs[i]? with
-    | some p => s.setProc i (p.endCtx d)
+    | some p => { s with procs := s.procs.set i (p.endCtx d) }
     | none => s
   | .timeout g => { s with wg := s.wg.timeout g }
   | .run i preferCtx hit retry retryKey =>
     match s.procs[i]? with
     | none => s
     | some p =>
-      let o0 : Obs := { preferCtx := preferCtx, hit := hit, retry := retry, retryKey := retryKey }
-      match p.pc with
-      | .start =>
-        if p.internal then s.setProc i (p.step limit o0)
-        else match p.headCall limit with
-          | none => s.setProc i (p.step limit o0)
-          | some op =>
-            let r := s.wg.step op
-            match r.2 with
-            | some (g, leader) =>
-              let s' := { s with wg := r.1, leaderOf := if leader then s.leaderOf ++ [i] else s.leaderOf }
-              s'.setProc i (p.step limit { o0 with gen := g, leader := leader })
-            | none => s
-      | .waiting g =>
-        s.setProc i (p.step limit { o0 with genClosed := genClosed s.wg g, genTimedOut := genTimedOut s.wg g })
-      | .leading _ => s.setProc i (p.step limit o0)
-      | .finishing (some g) _ =>
-        ({ s with wg := s.wg.done p.key g }).setProc i (p.step limit o0)
-      | .finishing none _ => s.setProc i (p.step limit o0)
-      | .terminated _ => s
+      let r := interact limit s.wg p { preferCtx := preferCtx, hit := hit, retry := retry, retryKey := retryKey }
+      { wg := r.1,
+        procs := s.procs.set i (p.step limit r.2.1),
+        leaderOf := if r.2.2 then s.leaderOf ++ [i] else s.leaderOf }
 
 def Sys.run (limit : Nat) (s : Sys) : List Label → Sys
   | [] => s
